@@ -172,4 +172,24 @@ def dataVB (file : Bytes) : Except Err (List (Bytes × Bytes)) := dataVBgo (file
 def readVB (file : Bytes) : Except Err (List Bytes) := (dataVB file).map (·.map (·.2))
 def rdwVB (file : Bytes) : Except Err (List Bytes) := (dataVB file).map (·.map fun p => p.1 ++ p.2)
 
+/-! ## the source: a file object at some position
+
+`RECFM_Reader.__init__` keeps the caller's file object as it is (`self.source = source`): a reader made on a source that the caller
+has positioned -- past a label, past junk, or after another reader took some records -- reads from THAT position on.  `pos` bytes of
+`data` have been consumed already. -/
+
+structure Source where
+  data : Bytes
+  pos : Nat
+deriving Repr
+
+/-- what `source.read(-1)` would still deliver -/
+def Source.rest (s : Source) : Bytes := s.data.drop s.pos
+
+def Source.readF (lrecl : Nat) (s : Source) : Option (List Bytes) := Recfm.readF lrecl s.rest
+def Source.readV (s : Source) : Except Err (List Bytes) := Recfm.readV s.rest
+def Source.rdwV (s : Source) : Except Err (List Bytes) := Recfm.rdwV s.rest
+def Source.readVB (s : Source) : Except Err (List Bytes) := Recfm.readVB s.rest
+def Source.readN (cap : Nat) (s : Source) (lens : List Nat) : List Bytes × EndN × St := Recfm.readN cap s.rest lens
+
 end Stingray.Recfm
